@@ -152,5 +152,24 @@ func fixedCases() []Case {
 			{K: "reopen"},
 			{K: "img", Img: im("png", 10, 4, 80, "q.png"), Size: sz("hkeep", 0, 8)},
 		}},
+		// another producer's packages without a styles part: the id the library gives the styles relationship is unused, is the
+		// first picture's, is the header's; more pictures and other relationships after each reopen
+		{Steps: []Step{
+			{K: "img", Img: im("png", 8, 4, 90, "a.png"), Size: sz("nil", 0, 0)},
+			{K: "img", Img: im("jpeg", 4, 6, 91, "b.jpg"), Size: sz("wkeep", 30, 0)},
+			{K: "renumber", N: schemeReverse, NoSty: 2},
+			{K: "img", Img: im("gif", 5, 7, 92, "c.gif"), Size: sz("nil", 0, 0)},
+			{K: "header", N: 0, S: "h"},
+			{K: "reopen"},
+			{K: "table", N: 1, M: 1},
+			{K: "cellimgd", Img: im("png", 3, 3, 93, "d.png"), Size: sz("none", 0, 0), Sel: []int{0, 0, 0}},
+			{K: "renumber", N: schemeNamed, M: 1, NoSty: 1},
+			{K: "img", Img: im("gif", 2, 9, 94, "e.gif"), Size: sz("hkeep", 0, 10)},
+			{K: "renumber", N: schemeReverse, NoSty: 5, Med: medNamed},
+			{K: "listitem", S: "i"},
+			{K: "img", Img: im("png", 6, 6, 95, "f.png"), Size: sz("both", 10, 10)},
+			{K: "reopen", B: true},
+			{K: "img", Img: im("jpeg", 7, 2, 96, "g.jpg"), Size: sz("nil", 0, 0)},
+		}},
 	}
 }
